@@ -60,6 +60,9 @@ type Finding struct {
 	Signature string `json:"signature"`
 	// SignatureRegex (anchored) names a family of signatures that share one root cause
 	SignatureRegex string `json:"signature_regex,omitempty"`
+	// ReplayFile (relative to /verif): the concrete failing case, re-executed on every run of the
+	// property's check so that the KNOWN-FINDING line is printed whenever the defect is still there
+	ReplayFiles []string `json:"replay_files,omitempty"`
 	WhatFails string `json:"what_fails"`
 	Minimal   any    `json:"minimal_case,omitempty"`
 	Commit    string `json:"commit,omitempty"`
@@ -133,6 +136,13 @@ func (r *Reporter) Report(sig, class, msg string, replay any) {
 		}
 		r.known[sig]++
 		r.knownText[sig] = f.WhatFails
+		if dir := os.Getenv("VERIF_SAVE_KNOWN"); dir != "" && r.known[sig] == 1 {
+			// harness maintenance: keep the concrete case of a known finding (to be committed under known/)
+			os.MkdirAll(dir, 0o755)
+			doc := map[string]any{"property": r.prop, "signature": sig, "expected_violation": map[string]string{"class": class, "message": msg}, "case": replay}
+			b, _ := json.MarshalIndent(doc, "", " ")
+			os.WriteFile(filepath.Join(dir, fmt.Sprintf("%s-%s.json", r.prop, sha(sig)[:8])), b, 0o644)
+		}
 		return
 	}
 	for _, v := range r.violations {
